@@ -43,7 +43,8 @@ struct Log
     bool overflow = false;
     long ctxmut = 0;
     void add(Event&& e) { if (ev.size() < max_events) ev.emplace_back(std::move(e)); else overflow = true; }
-    void reset() { ev.clear(); cur.clear(); next_id = 0; base = nullptr; base_len = 0; overflow = false; ctxmut = 0; }      // (object ids keep counting: objects may outlive a job)
+    std::vector<long> zdone;    // offsets at which a zero-length term was handed to its functor (= shifted)
+    void reset() { ev.clear(); cur.clear(); next_id = 0; base = nullptr; base_len = 0; overflow = false; ctxmut = 0; zdone.clear(); }      // (object ids keep counting: objects may outlive a job)
 };
 inline thread_local Log tl_log;
 
@@ -133,6 +134,13 @@ inline const bool g_track = getenv("VERIF_TRACK") != nullptr;
 inline thread_local long tl_next_oid = 0;
 inline void vlog(const char* k, long a, long b) { Event e; e.k = k; e.a = { a, b }; tl_log.add(std::move(e)); }
 
+// a value type whose move operations MAY throw (as far as the type system knows) is still a value type that can be moved:
+// translation units built with VH_MOVE_MAY_THROW use such a Node (std::move_if_noexcept and friends would copy it)
+#ifdef VH_MOVE_MAY_THROW
+#define VH_NOEXCEPT
+#else
+#define VH_NOEXCEPT noexcept
+#endif
 struct Node
 {
     std::shared_ptr<Tree> t;
@@ -141,9 +149,9 @@ struct Node
     Node() { if (g_track) { oid = tl_next_oid++; vlog("v_new", oid, -1); } }
     explicit Node(std::shared_ptr<Tree> tr) : t(std::move(tr)) { if (g_track) { oid = tl_next_oid++; vlog("v_new", oid, tid()); } }
     Node(const Node& o) : t(o.t) { if (g_track) { oid = tl_next_oid++; vlog("v_copy", o.oid, oid); } }
-    Node(Node&& o) noexcept : t(std::move(o.t)) { if (g_track) { oid = tl_next_oid++; vlog("v_move", o.oid, oid); } }
+    Node(Node&& o) VH_NOEXCEPT : t(std::move(o.t)) { if (g_track) { oid = tl_next_oid++; vlog("v_move", o.oid, oid); } }
     Node& operator=(const Node& o) { t = o.t; if (g_track) vlog("v_cassign", o.oid, oid); return *this; }
-    Node& operator=(Node&& o) noexcept { t = std::move(o.t); if (g_track) vlog("v_massign", o.oid, oid); return *this; }
+    Node& operator=(Node&& o) VH_NOEXCEPT { t = std::move(o.t); if (g_track) vlog("v_massign", o.oid, oid); return *this; }
     ~Node() { if (g_track) vlog("v_dtor", oid, -1); }
     // rules WITHOUT a functor construct the left-side value from the right-side values: LValueType(values...).
     // The variadic constructor observes that call (a unit rule over a nonterminal is a plain move and has no event);
@@ -181,6 +189,7 @@ struct TermF
         long off = -1;
         if (L.base && sv.data() >= L.base && sv.data() <= L.base + L.base_len) off = long(sv.data() - L.base);
         tr->off = off; tr->len = long(sv.size());
+        if (sv.size() == 0) L.zdone.push_back(off);
         Event e; e.k = "tval"; e.a = { t, off, long(sv.size()), tr->id };
         L.add(std::move(e));
         return Node(tr);
@@ -268,6 +277,14 @@ struct RuleF
     }
 };
 
+// the same functor for a VALUE-LESS left side (nterm<no_type>): the call is observed like any other, the result is no_type
+struct RuleFN
+{
+    int r;
+    template<typename... A>
+    ctpg::no_type operator()(A&&... a) const { RuleF{r}(std::forward<A>(a)...); return {}; }
+};
+
 // ---------------------------------------------------------------- a user buffer whose iterators observe every access
 // `slack` = number of bytes after the text that may legitimately be read (1 for NUL-terminated pattern literals,
 // 0 for caller buffers).  Reads / iterator positions outside [0, len + slack) / [0, len] are logged as events.
@@ -325,6 +342,14 @@ struct byte_lexer
         { Event e; e.k = "lexcall"; e.a = { off, long(sp.line), long(sp.column), avail }; L.add(std::move(e)); }
         if (avail == 0) { Event e; e.k = "lexcall_at_end"; L.add(std::move(e)); return ctpg::recognized_term{}; }
         unsigned char b = (unsigned char)*start;
+        if (b >= 0x80 && b < 0x90)
+        {
+            // a virtual term: length 0 until it has been shifted at this offset, then the byte itself is that term
+            if (int(b - 0x80) >= NTerms) return ctpg::recognized_term{};
+            bool done = false;
+            for (long z : L.zdone) if (z == off) done = true;
+            return ctpg::recognized_term(ctpg::size16_t(b - 0x80), size_t(done ? 1 : 0));
+        }
         if (b < 0x40 || b > 0x7f) return ctpg::recognized_term{};
         int idx = (b - 0x40) / 4, len = (b - 0x40) % 4 + 1;
         if (idx >= NTerms || len > avail) return ctpg::recognized_term{};
@@ -376,6 +401,12 @@ struct RuleFC
         L.add(std::move(e));
         return Node(tr);
     }
+};
+struct RuleFCN
+{
+    int r;
+    template<typename... A>
+    ctpg::no_type operator()(A&&... a) const { RuleFC{r}(std::forward<A>(a)...); return {}; }
 };
 
 // ---------------------------------------------------------------- job / trace plumbing
